@@ -62,16 +62,18 @@ def some_values(rng, bpp, k):
     vs = [0, m, 1, m >> 1, (m >> 1) + 1, 0x1234 & m, 0x123456 & m, 0x12345678 & m]
     out = [rng.choice(vs) for _ in range(k)]
     out.append(rng.randrange(m + 1))
-    # from_u32 masks: now and then hand over an unmasked u32
-    if rng.random() < 0.2:
-        out.append(rng.randrange(2 ** 32))
+    # from_u32 masks: always hand over one unmasked u32 with the bits above the pixel width set
+    # (rd_store prints the value from_u32 built, so the mask of every type incl. RawU24 is observed)
+    out.append(rng.choice([0xFFFFFFFF, 0xFF123456, 0x80000000 | rng.randrange(2 ** 31), rng.randrange(2 ** 32) | 0xFF000000]))
     return out
 
 
 def far_indices(bpp):
     n = max(1, bpp // 8)
     # far beyond the buffer, on both sides of the checked_mul boundary (index * bytes_per_pixel = usize::MAX)
-    return [i for i in [USIZE_MAX // n, USIZE_MAX // n - 1, USIZE_MAX // n + 1, 2 ** 63 // n, 2 ** 32, 2 ** 32 + 1] + OVERFLOWING
+    # ... and around 2^8, 2^16, 2^24 (a truncated index or byte offset would land back inside a small buffer)
+    small = [255, 256, 257, 65535, 65536, 65537, 2 ** 16 // n, 2 ** 16 // n + 1, 2 ** 24, 2 ** 24 + 1, 2 ** 32 // n, 2 ** 32 // n + 1]
+    return [i for i in [USIZE_MAX // n, USIZE_MAX // n - 1, USIZE_MAX // n + 1, 2 ** 63 // n, 2 ** 32, 2 ** 32 + 1] + OVERFLOWING + small
             if i <= USIZE_MAX]
 
 
@@ -111,12 +113,32 @@ def cases(tier, rng):
                 tot = total(bpp, n)
                 for bg in backgrounds(rng, n):
                     yield J('rd_iter', bpp, alt, *bg)
-                    for idx in list(range(0, tot + 2)) + [rng.choice(far_indices(bpp))]:
+                    for idx in list(range(0, tot + 2)) + rng.sample(far_indices(bpp), 3):
                         yield J('rd_load', bpp, alt, idx, *bg)
                         for v in some_values(rng, bpp, reps):
                             yield J('rd_store', bpp, alt, idx, v, *bg)
                     for _ in range(2 * reps):
                         yield J('rd_ops', bpp, alt, n, *bg, *ops(rng, bpp, tot, rng.randrange(1, 9)))
+    # large buffers (given by a rule, not byte by byte): single load / store / nth at indices beyond 2^8 and 2^16,
+    # where a truncated index or byte offset would address a different pixel
+    for bpp in BPPS:
+        nb = max(1, bpp // 8)
+        for alt in (0, 1):
+            for length in ([300, 70000] if tier == 'quick' else [300, 8200, 70000, 140000]):
+                tot = total(bpp, length)
+                idxs = {1, tot - 1, tot, tot + 1, tot // 2}
+                for base in (256, 65536, 65536 // nb, 256 // nb, 65536 * nb, 65536 // max(1, 8 // bpp)):
+                    for d in (-1, 0, 1, 7):
+                        idxs.add(base + d)
+                idxs = sorted(i for i in idxs if i >= 1)
+                if tier == 'quick' and length > 300:
+                    idxs = [i for k, i in enumerate(idxs) if k % 2 == 0 or i >= tot - 1]
+                for idx in idxs:
+                    yield J('rd_big', bpp, alt, length, rng.choice([1, 3, 7, 37]), rng.randrange(256), idx, rng.randrange(2 ** 32))
+                for _ in range(2):
+                    k1 = rng.choice([255, 256, 65535, 65536, tot - 2, tot // 2, rng.randrange(0, tot + 2)])
+                    yield J('rd_big_nth', bpp, alt, length, rng.choice([1, 3, 7, 37]), rng.randrange(256), k1,
+                            rng.choice([0, 1, 255, 256, 65535, 65536, tot, rng.randrange(0, tot + 2)]))
     # longer random buffers
     for _ in range(300 if tier == 'quick' else 3000):
         bpp, alt, n = rng.choice(BPPS), rng.randrange(2), rng.randrange(0, 40)
